@@ -549,6 +549,11 @@ def drive_planning(case):
         planning(net, eq, {'path-request': _copy.deepcopy(case['json_requests'])})
     except (ServiceError, DisjunctionError) as e:
         box['refused'] = f'{type(e).__name__}'
+    except Exception:
+        # an exception out of the spectrum assignment itself is an observation (recorded as the last step, judged by
+        # the oracle); anything else is not C14's and is left to the driver
+        if not (steps and steps[-1]['out'].startswith('E:')):
+            raise
     finally:
         wu.pth_assign_spectrum = orig
         sa.build_path_oms_id_list = orig_bp
@@ -675,8 +680,11 @@ def run(ctx):
                            impl=a[k] if k < len(a) else None, model=b[k] if k < len(b) else None)
     ctx.assumptions += [
         'translator tie: harness/pygen.py (fail-closed Python-ast -> Gallina for mvalue_to_slots, slots_to_m, bitmap_sum, '
-        'select_candidate, OMS.assign_spectrum, compute_spectrum_slot_vs_bandwidth) is trusted; int(a / b) / ceil(a / b) '
-        'on integers are read as exact truncation / ceiling (true below 2^53); isinstance type guards are dropped',
+        'select_candidate, OMS.assign_spectrum, compute_spectrum_slot_vs_bandwidth, the if/elif chain of the loop body '
+        'of compute_n_m and the blocking decisions of pth_assign_spectrum; the list bookkeeping, ordering and commit '
+        'loops of those two functions are matched statement by statement against a template) is trusted; int(a / b) / '
+        'ceil(a / b) on integers are read as exact truncation / ceiling (true below 2^53); isinstance type guards are '
+        'dropped',
         'fake path elements (objects with only an oms_id) stand for line elements; the OMS set of a real path is '
         'tied separately (oracle key path_oms and the planning-level run)',
         'initial OMS states are those built by Bitmap(...) from (n_min, n_max, guardband, cells); the model is '
